@@ -55,33 +55,37 @@ class Impl:
 
 
 # --- monitor ------------------------------------------------------------------
-# monitor state: (bad, can_seen, blocked, pukbad, deact, lastok)
+# monitor state: (bad, can_seen, blocked, pukbad, deact, lastok, owed)
+# owed: a correct PUK (before the tenth wrong one) has unblocked the PIN and no PIN attempt was made since: the next one
+# must be admitted ("blocks it permanently after ten wrong PUKs", not earlier)
 
 def mon_init(pin):
     if pin == "pin3":
-        return (0, False, False, 0, False, None)
+        return (0, False, False, 0, False, None, False)
     if pin == "pin2":
-        return (1, False, False, 0, False, None)
+        return (1, False, False, 0, False, None, False)
     if pin == "pins":
-        return (2, False, False, 0, False, None)
+        return (2, False, False, 0, False, None, False)
     if pin == "pin1":
-        return (2, True, False, 0, False, None)
+        return (2, True, False, 0, False, None, False)
     if pin == "pin0":
-        return (3, False, True, 0, False, None)
+        return (3, False, True, 0, False, None, False)
     if pin == "pind":
-        return (0, False, False, 0, True, None)
+        return (0, False, False, 0, True, None, False)
     if pin.startswith("puk"):
-        return (3, False, True, 10 - int(pin[3:]), False, None)
+        return (3, False, True, 10 - int(pin[3:]), False, None, False)
     raise Harness(pin)
 
 
 def mon_step(m, ev, accepted, before, after):
     """returns (new monitor state, list of violated rules)"""
-    bad, can_seen, blocked, pukbad, deact, lastok = m
+    bad, can_seen, blocked, pukbad, deact, lastok, owed = m
     viol = []
     if not accepted:
         if before != after:
             viol.append("R6:rejected-event-changed-state:" + ev)
+        if owed and ev in ("pin_ok", "pin_bad") and not blocked and not deact:
+            viol.append("R3:pin-attempt-refused-after-correct-puk-before-the-tenth-wrong-one:" + ev)
         return m, viol
     if ev in ("pin_ok", "pin_bad"):
         if blocked:
@@ -91,6 +95,7 @@ def mon_step(m, ev, accepted, before, after):
             viol.append("R4:pin-attempt-accepted-while-deactivated:" + ev)
         if bad == 2 and not can_seen:
             viol.append("R2:last-pin-attempt-without-can:" + ev)
+        owed = False
         if ev == "pin_ok":
             if not blocked and not deact:
                 bad, can_seen = 0, False
@@ -107,12 +112,13 @@ def mon_step(m, ev, accepted, before, after):
     elif ev == "puk_ok":
         if blocked and pukbad < 10:
             blocked, bad, can_seen, pukbad = False, 0, False, 0
+            owed = not deact
         lastok = "auth_puk"
     elif ev == "puk_bad":
         if blocked:
             pukbad = min(10, pukbad + 1)
     elif ev == "pin_deactivate":
-        deact = True
+        deact, owed = True, False
     elif ev == "pin_activate":
         if not deact:
             viol.append("R4:activate-accepted-when-not-deactivated")
@@ -125,7 +131,7 @@ def mon_step(m, ev, accepted, before, after):
     # R5
     if after[1] not in ("auth_none", lastok):
         viol.append("R5:auth-not-most-recent-success:%s" % after[1])
-    return (bad, can_seen, blocked, pukbad, deact, lastok), viol
+    return (bad, can_seen, blocked, pukbad, deact, lastok, owed), viol
 
 
 def unit_closure(ctx):
